@@ -379,6 +379,28 @@ func cmdCheck(args []string) int {
 					res, o := g.boundedStandin(p, c, work, *repo, *verif)
 					boundedRes = append(boundedRes, res)
 					if o != nil {
+						// an open known finding covers the violation iff the stand-in
+						// passes once the finding's witness class is excluded
+						var match *KnownFinding
+						for _, kf := range kfs {
+							if kf.Status == "open" && kf.Property == *prop && kf.Exclude != "" && obligationMatches(o.Name, kf.Obligation) {
+								match = kf
+							}
+						}
+						if match != nil {
+							if e, err := ParseExpr("!(" + match.Exclude + ")"); err == nil {
+								c2 := *c
+								c2.BoundedReq = append(append([]*Clause{}, c.BoundedReq...), &Clause{E: e, Src: "!(" + match.Exclude + ")", Label: "excluding-known"})
+								res2, o2 := g.boundedStandin(p, &c2, work, *repo, *verif)
+								res2["excluding_known_finding"] = match.Exclude
+								boundedRes = append(boundedRes, res2)
+								if o2 == nil && res2["skipped"] == nil {
+									known = append(known, o)
+									knownMsg[o] = match
+									continue
+								}
+							}
+						}
 						violations = append(violations, o)
 					}
 				}
